@@ -8,7 +8,7 @@ from typing import Dict, List, Optional, Tuple
 from ..keval import KEval, Ref, Cond, Const, Top, Ctor, SelfObj, SLICE, Summary
 from ..poly import Poly, ZERO, ONE
 from ..forms import short, norm_cond, CMP, AND
-from .. import wire
+from .. import wire, paths
 from ..model import norm_text, AnchorMissing
 from ..controls import Control
 from ..mutate import in_func
@@ -85,45 +85,31 @@ def array_rule(ctx, p, K):
     t = arr.lookup("triangles")
     rets = wire.returns_of(t)
     ctx.ob("C20.selection", t.key, len(rets) == 1 and norm_text(rets[0].value) == "self.vertices[self.indices]", where=t, node=t.node, construct=norm_text(rets[0].value) if rets else "", message="triangles = vertices[indices]")
+    # decided on what each method returns with every local substituted (sa/paths.py; new helpers looked into): ArrayTriangles(indices=..., vertices=...)
+    def returned_kw(mm):
+        PS = paths.path_summaries(mm, project=p) or []
+        rets = paths.returns(PS)
+        if len(PS) == 1 and len(rets) == 1 and isinstance(rets[0].value, ast.Call):
+            return {k: paths.ptext(v) for k, v in paths.kwargs(rets[0].value).items()}
+        return {}
     for meth, src in (("up_sample", "self._up_sample_triangle()"), ("neighborhood", "self._neighborhood_triangles()")):
         mm = arr.lookup(meth)
-        uq = [c for c in mm.calls() if norm_text(c.func) in ("np.unique", "numpy.unique")]
-        ok = len(uq) >= 1 and norm_text(uq[0].args[0]) == f"{src}.reshape(-1, 2)" and norm_text(wire.kw(uq[0]).get("axis")) == "0" and norm_text(wire.kw(uq[0]).get("return_inverse")) == "True"
-        tg = [n.targets[0] for n in mm.body_nodes() if isinstance(n, ast.Assign) and n.value is uq[0]] if uq else []
-        ok = ok and len(tg) == 1 and isinstance(tg[0], ast.Tuple) and len(tg[0].elts) == 2
-        if ok:
-            vname, iname = norm_text(tg[0].elts[0]), norm_text(tg[0].elts[1])
-            rets = wire.returns_of(mm)
-            kwn = wire.kw(rets[0].value) if rets and isinstance(rets[0].value, ast.Call) else {}
-            # the indices are the inverse map regrouped 3 per triangle (directly or through a local); the vertices are the unique rows
-            ind = wire.inline_locals(mm, kwn["indices"]) if "indices" in kwn else None
-            ok = norm_text(kwn.get("vertices")) == vname and (meth == "neighborhood" or (ind is not None and norm_text(ind) == f"{iname}.reshape(-1, 3)"))
-            if meth == "neighborhood":
-                rs = [norm_text(n.value) for n in mm.body_nodes() if isinstance(n, ast.Assign) and norm_text(n.targets[0]) == "new_indices"]
-                ok = ok and rs == [f"{iname}.reshape(-1, 3)"]
-        ctx.ob("C20.selection", mm.key, ok, where=mm, node=mm.node, construct=norm_text(uq[0])[:120] if uq else "", message=f"{meth} must de-duplicate the vertices of exactly the triangles produced by {src} (rows of 2 coordinates) and index them through the inverse map, 3 per triangle")
-    # neighbourhood de-duplicates whole triangles irrespective of vertex order
-    mm = arr.lookup("neighborhood")
-    txt = [norm_text(n) for n in mm.body_nodes() if isinstance(n, ast.Assign)]
-    ok = any("np.sort(new_indices, axis=1)" in t_ for t_ in txt) and any("np.unique(new_indices_sorted, axis=0" in t_ for t_ in txt)
-    rets = wire.returns_of(mm)
-    kwv = {k: norm_text(v) for k, v in wire.kw(rets[0].value).items()} if rets and isinstance(rets[0].value, ast.Call) else {}
-    ctx.ob("C20.neighborhood", mm.key + ":unique", ok and kwv.get("indices") == "unique_triangles_indices", where=mm, node=mm.node, construct=str(kwv), message="duplicate triangles (same three vertices in any order) must be removed and nothing else")
+        U = f"np.unique({src}.reshape(-1,2),axis=0,return_inverse=True)"
+        kwn = returned_kw(mm)
+        inv3 = f"{U}[1].reshape(-1,3)"
+        ok = kwn.get("vertices") == f"{U}[0]" and set(kwn) == {"indices", "vertices"} and (inv3 in kwn.get("indices", "") if meth == "neighborhood" else kwn.get("indices") == inv3)
+        ctx.ob("C20.selection", mm.key, ok, where=mm, node=mm.node, construct=str(kwn)[:300], message=f"{meth} must de-duplicate the vertices of exactly the triangles produced by {src} (rows of 2 coordinates) and index them through the inverse map, 3 per triangle")
+        if meth == "neighborhood":
+            # neighbourhood de-duplicates whole triangles irrespective of vertex order
+            srt = f"np.sort({inv3},axis=1)"
+            okn = kwn.get("indices") in (f"np.unique({srt},axis=0)", f"np.unique({srt},axis=0,return_index=True)[0]")
+            ctx.ob("C20.neighborhood", mm.key + ":unique", okn, where=mm, node=mm.node, construct=kwn.get("indices", "")[:300], message="duplicate triangles (same three vertices in any order) must be removed and nothing else")
     # for_indexes: the selected triangles' own vertices, re-indexed
     mm = arr.lookup("for_indexes")
-    rets = wire.returns_of(mm)
-    kwn = wire.kw(rets[0].value) if rets and isinstance(rets[0].value, ast.Call) else {}
-    uq = [c for c in mm.calls() if norm_text(c.func) in ("np.unique", "numpy.unique")]
-    tg = [n.targets[0] for n in mm.body_nodes() if isinstance(n, ast.Assign) and uq and n.value is uq[0]]
-    ok = len(uq) == 1 and len(tg) == 1 and isinstance(tg[0], ast.Tuple) and len(tg[0].elts) == 2
-    txt = {}
-    if ok:
-        vname, iname = norm_text(tg[0].elts[0]), norm_text(tg[0].elts[1])
-        # name-free: the unique rows of the selected triangles' vertices, and the inverse map regrouped like the selected index block
-        txt = {"unique of": norm_text(wire.inline_locals(mm, uq[0].args[0])), "axis": norm_text(wire.kw(uq[0]).get("axis")), "return_inverse": norm_text(wire.kw(uq[0]).get("return_inverse")),
-               "indices": norm_text(wire.inline_locals(mm, kwn["indices"])) if "indices" in kwn else None, "vertices": norm_text(kwn.get("vertices"))}
-        ok = txt == {"unique of": "self.vertices[self.indices[indexes].flatten()]", "axis": "0", "return_inverse": "True", "indices": f"{iname}.reshape(self.indices[indexes].shape)", "vertices": vname}
-    ctx.ob("C20.selection", mm.key, ok and set(kwn) == {"indices", "vertices"}, where=mm, node=mm.node, construct=str(txt)[:300], message="selection by index must keep exactly the selected triangles' vertices and re-index them consistently")
+    kwn = returned_kw(mm)
+    U = "np.unique(self.vertices[self.indices[indexes].flatten()],axis=0,return_inverse=True)"
+    ok = kwn == {"indices": f"{U}[1].reshape(self.indices[indexes].shape)", "vertices": f"{U}[0]"}
+    ctx.ob("C20.selection", mm.key, ok, where=mm, node=mm.node, construct=str(kwn)[:300], message="selection by index must keep exactly the selected triangles' vertices and re-index them consistently")
     mm = arr.lookup("with_vertices")
     rets = wire.returns_of(mm)
     kwv = {k: norm_text(v) for k, v in wire.kw(rets[0].value).items()} if rets and isinstance(rets[0].value, ast.Call) else {}
